@@ -335,7 +335,10 @@ class Reverse(Contract):
 def run_deductive(ctx):
     w = World(SpecLib())
     cs = [_q("has_package", ("pkg",), ("result == (pkg in self.db)",)), _q("has_tag", ("tag",), ("result == (tag in self.rdb)",)),
-          _q("package_count", (), ("result == len(self.db)",)), _q("tag_count", (), ("result == len(self.rdb)",)), Reverse()]
+          _q("package_count", (), ("result == len(self.db)",)), _q("tag_count", (), ("result == len(self.rdb)",)),
+          # the two look-ups hand out the stored set of a known name (an unknown name gives a new set) and change neither index
+          _q("tags_of_package", ("pkg",), ("implies(pkg in self.db, result == self.db[pkg])",)),
+          _q("packages_of_tag", ("tag",), ("implies(tag in self.rdb, result == self.rdb[tag])",)), Reverse()]
     verify_contracts(ctx, w, cs, {})
     ctx.solve()
 
@@ -375,7 +378,7 @@ def run(ctx):
     ctx.explanation = (
         "PROVED from the AST (very small functions, but the real ones): has_package / has_tag are membership in the package / tag "
         "index, package_count / tag_count their sizes, reverse() a collection whose two indexes are the SAME dictionary objects, "
-        "swapped. Everything about the contents of the tag and package sets is BOUNDED: the reference model shares and copies set objects exactly as the docstrings say and "
+        "swapped; tags_of_package / packages_of_tag hand out the stored set of a known name and change neither index. Everything about the contents of the tag and package sets is BOUNDED: the reference model shares and copies set objects exactly as the docstrings say and "
         "reproduces the one recorded deviation of DB.insert; real and model states are compared for every live collection "
         "after every step, so a change in what is shared or copied, in the reverse index, in read/filter semantics or in the "
         "queries shows up as a state difference. Histories in which the documented sharing itself breaks the parent's "
